@@ -69,6 +69,14 @@ pub fn secretbox_open_detached(c: &[u8], mac: &[u8; 16], n: &[u8; 24], k: &[u8; 
     }
 }
 
+/// XSalsa20 keystream (the first 32 bytes are the Poly1305 key of a secretbox)
+pub fn stream_xsalsa20(n: usize, nonce: &[u8; 24], k: &[u8; 32]) -> Vec<u8> {
+    let mut out = vec![0u8; n.max(1)];
+    unsafe { ffi::crypto_stream_xsalsa20(out.as_mut_ptr(), n as u64, nonce.as_ptr(), k.as_ptr()) };
+    out.truncate(n);
+    out
+}
+
 // ------------------------------------------------------------------- box
 
 pub fn box_seed_keypair(seed: &[u8; 32]) -> ([u8; 32], [u8; 32]) {
